@@ -558,6 +558,38 @@ func (w *World) registryTable(prop string) []*FuncResult {
 		}
 		cur[rs.Kind+" "+key] = w.funcName(rs.Fn)
 	}
+	// built-in type migrations: RegisterTypeMigration calls with constant names (the renames the
+	// library itself declares, e.g. os.PathError -> io/fs.PathError)
+	for fn := range w.AllFuncs {
+		if fn.Pkg == nil || !w.InModule(fn.Pkg.Pkg) || strings.HasSuffix(fn.Pkg.Pkg.Path(), "/testutils") || strings.Contains(fn.Pkg.Pkg.Path(), "fmttests") {
+			continue
+		}
+		if pos := w.Fset.Position(fn.Pos()); strings.HasSuffix(pos.Filename, "_test.go") {
+			continue
+		}
+		for _, b := range fn.Blocks {
+			for _, ins := range b.Instrs {
+				call, ok := ins.(*ssa.Call)
+				if !ok {
+					continue
+				}
+				callee := call.Call.StaticCallee()
+				if callee == nil || callee.Name() != "RegisterTypeMigration" || len(call.Call.Args) != 3 {
+					continue
+				}
+				c0, ok0 := call.Call.Args[0].(*ssa.Const)
+				c1, ok1 := call.Call.Args[1].(*ssa.Const)
+				if !ok0 || !ok1 || c0.Value == nil || c1.Value == nil {
+					continue
+				}
+				nt := "?"
+				if mi, isMI := call.Call.Args[2].(*ssa.MakeInterface); isMI {
+					nt = w.shortType(mi.X.Type())
+				}
+				cur["Migration "+nt] = strings.Trim(c0.Value.ExactString(), "\"") + "/" + strings.Trim(c1.Value.ExactString(), "\"")
+			}
+		}
+	}
 	if os.Getenv("VERIF_WRITE_REGISTRY") == "1" {
 		var lines []string
 		for _, k := range sortedKeys(cur) {
